@@ -20,7 +20,11 @@ def shrink(lines, still_fails, budget=400):
         chunk = max(1, len(cur) // n)
         reduced = False
         for i in range(0, len(cur), chunk):
-            cand = cur[:i] + cur[i + chunk:]
+            # thread set-up and collector steps stay: removing them changes which calls would block on the registry lock
+            keep = [l for l in cur[i:i + chunk] if l.split()[1] in ("spawn", "touch", "setReporter", "cycBegin", "cycStep")]
+            if len(keep) == len(cur[i:i + chunk]):
+                continue
+            cand = cur[:i] + keep + cur[i + chunk:]
             tries += 1
             if cand and still_fails(cand):
                 cur = cand
